@@ -13,9 +13,11 @@
 (*   sub     amplifier settings: sequence of [variety, gain, voa, dp] (one entry for an Edfa, one per band for  *)
 (*           a multiband amplifier; <<>> for other elements); NONE = not set                                   *)
 (*   origin  "" or the uid of the input fibre this span was cut from                                           *)
+(*   phys    further physical parameters of a fibre as a sequence of integers (PMD coefficient and whether the user  *)
+(*           defined it, dispersion values and their reference frequencies, gamma, effective area, lumped losses) *)
 (*   opt     "" or a tag of further user parameters the generator put on the element (carried, not judged)     *)
 (* Settings S: [padding, eol, conIn, conOut (micro-dB), maxLen (length unit), powerMode (BOOLEAN), lib (set of  *)
-(* amplifier type varieties of the equipment library)].                                                        *)
+(* amplifier type varieties of the equipment library), insert (BOOLEAN: amplifier insertion / splitting on)].                                                        *)
 (* Every clause of C08 is an operator over (In, G, S): the topology given to auto-design, the designed graph,   *)
 (* the Span settings.  DesignStructure applies them to the state of the rewriting system, Trace_Design to the   *)
 (* graph observed after the real designed_network().                                                           *)
@@ -104,6 +106,7 @@ SplitOk(f, G, S) ==
        \/ /\ same = {} /\ k >= 2
           /\ f.len >= S.maxLen
           /\ \A i \in parts : /\ G[i].type = f.type /\ G[i].coef = f.coef /\ G[i].coefTab = f.coefTab /\ G[i].variety = f.variety
+                              /\ G[i].phys = f.phys
                               /\ G[i].len <= S.maxLen
                               /\ \A j \in parts : G[j].len = G[i].len
                               /\ AbsI(k * G[i].len - f.len) <= k
@@ -122,6 +125,11 @@ EveryAmpConfigured(G, S) ==
                                          /\ s.gain # NONE
                                          /\ s.voa # NONE
                                          /\ S.powerMode => s.dp # NONE
+
+\* an output VOA is an attenuator: never negative
+VoaIsAttenuation(G) == \A i \in Amps(G) : \A b \in 1..Len(G[i].sub) : G[i].sub[b].voa # NONE => G[i].sub[b].voa >= 0 - Tol
+\* with amplifier insertion switched off (no_insert_edfas) the design completes settings and adds no element
+NoInsertionWhenNotAsked(In, G, S) == ~S.insert => NamesOf(G) = NamesOf(In)
 
 EveryFiberHasConnectors(G) == \A i \in Fibres(G) : G[i].conIn # NONE /\ G[i].conOut # NONE /\ G[i].attIn # NONE
 
